@@ -513,3 +513,72 @@ class promote:
             return self._underlying
         return tuple(S.convert_value(new_dtype, x) for x in self._underlying)
     updates = {'_dtype': _new_dtype, '_underlying': _new_values}
+
+
+@loop_invariant('serif.vector.Vector.__setitem__', 'for val in new_values', havoc={'target_kind': 'kind', 'required_kind': 'kind'})
+def setitem_decision_inv(k, self, new_values, target_kind):
+    """After k new values: no rejection so far and target_kind is the ladder fold of them."""
+    st = S.ladder_state(self._dtype.kind, new_values, k)
+    return (not st[1]) and target_kind is st[0] and target_kind is not type(None)
+
+
+def _bad_int_key(self, key):
+    if isinstance(key, list):
+        return len(key) == len_or_none(key) and any(not (-len(self._underlying) <= i < len(self._underlying)) for i in key)
+    return isinstance(key, int) and not (-len(self._underlying) <= key < len(self._underlying))
+
+
+def len_or_none(x):
+    return len(x)
+
+
+def _bad_slice(self, key, value):
+    if isinstance(key, list):
+        return isinstance(value, list) and len(value) != len(key)
+    return isinstance(key, slice) and isinstance(value, list) and len(value) != len(range(len(self._underlying))[key])
+
+
+class _setitem_base:
+    """C08 (decision + frame): for int and slice keys with a scalar or a list value — bad index /
+    length mismatch raise; on success length and name are unchanged, the column kind is the
+    ladder fold over EVERY written value (existing elements converted by _promote), None makes it
+    nullable, and no value was rejected; SerifTypeError only arises from the ladder.  Element
+    values after the write are bounded-only (scatter-loop abstraction)."""
+    params = {'self': 'vector', 'key': 'alt:int|slice', 'value': 'alt:scalar|list_any'}
+    may_raise = [AliasError, SerifTypeError]
+    raises = [(SerifIndexError, _bad_int_key, True), (SerifValueError, _bad_slice, True),
+              (ValueError, lambda key: isinstance(key, slice) and key.step is not None and key.step == 0, True)]
+
+    def requires(self, key, value):
+        # slice keys with a scalar (repeated) value are covered by the bounded stand-in only
+        return ((self._dtype is None or S.valid_dtype(self._dtype)) and S.truthful(self)
+                and (isinstance(key, int) or isinstance(value, list))
+                and (not isinstance(key, list) or len(key) > 0))
+
+    def ensures(self, key, value, old):
+        n = len(old._underlying)
+        if len(self._underlying) != n or not (self._name == old._name):
+            return False
+        vals = S.written_values(key, value, n)
+        if old._dtype is None or len(vals) == 0:
+            return self._dtype == old._dtype
+        if old._dtype.kind is object:
+            kind_ok = self._dtype.kind is object
+        else:
+            st = S.setitem_kind_state(old._dtype, vals)
+            kind_ok = (not st[1]) and self._dtype.kind is st[0]
+        return kind_ok and self._dtype.nullable == (old._dtype.nullable or any(v is None for v in vals))
+
+
+def _setitem_variant(name, key_sort, value_sort, primary=False, tier='quick'):
+    spec = type(f'setitem_{name}', (), dict(_setitem_base.__dict__))
+    spec.params = {'self': 'vector', 'key': key_sort, 'value': value_sort}
+    spec.tier = tier
+    spec.__doc__ = _setitem_base.__doc__
+    contract('serif.vector.Vector.__setitem__', props=['C08', 'C03'], variant=None if primary else name)(spec)
+
+
+_setitem_variant('int-scalar', 'int', 'scalar', primary=True)
+_setitem_variant('int-list', 'int', 'list_any')
+_setitem_variant('slice-list', 'slice', 'list_any', tier='thorough')
+_setitem_variant('indexlist-list', 'list_int', 'list_any')
